@@ -15,13 +15,13 @@ var mixC02 = Mix{Set: 30, Delete: 10, GetItem: 3, Visit: 2, Flush: 14, Evict: 4,
 func init() {
 	register(&Prop{
 		ID: "C02", Level: "exploration",
-		Rule: "case = random history over 2-4 collections (plain and exotic names, boundary key/value sizes) with Flush density 5-30%, collection creation/removal between flushes, Collection.Write(), evictions, flushes that FAIL on one of their writes (outright or torn) and are retried, occasional FlushRevert (the expected durable state is then the flush before; in half of the cases a reader goroutine lists the collections in the middle of it), Collection.Write() called through a snapshot handle, one case in seven under an item-substituting BeforeItemWrite/AfterItemRead codec, and 0-5 re-opens after which the history continues on the re-opened store. After every successful Flush, after each of the following 6 steps, at every re-open and at the end, a SECOND store is opened on a copy of the current file image and its complete state (collection names, keys, values, priorities, totals, min/max) is compared with the model's state at the most recent successful Flush; the same image is decoded by the independent decoder. Unflushed work (incl. created/removed collections) must never be visible there. Concurrent cases: the flusher runs next to the mutator under the deterministic scheduler and every image it produced must decode to versions that were current during that Flush. Non-trivial = at least two flushes with mutations between them, unflushed changes pending at some re-open comparison, and a collection created or removed; distinct = distinct op-trace hash.",
+		Rule: "case = random history over 2-4 collections (plain and exotic names, boundary key/value sizes) with Flush density 5-30%, collection creation/removal between flushes, Collection.Write(), evictions, flushes that FAIL on one of their writes (outright or torn) and are retried, occasional FlushRevert (the expected durable state is then the flush before; in half of the cases a reader goroutine lists the collections in the middle of it), Collection.Write() called through a snapshot handle, one case in seven under an item-substituting BeforeItemWrite/AfterItemRead codec, and 0-5 re-opens after which the history continues on the re-opened store. After every successful Flush, after each of the following 6 steps, at every re-open and at the end, a SECOND store is opened on a copy of the current file image and its complete state (collection names, keys, values, priorities, totals, min/max) is compared with the model's state at the most recent successful Flush; the same image is decoded by the independent decoder. Unflushed work (incl. created/removed collections) must never be visible there. Size cases: (a) 1200-2500 collections, so that the root record alone is 60-130 KiB, flushed, re-opened and compared, then some removed / added and flushed again; (b) a flushed store followed by 5-7 MiB of unreferenced item records (Collection.Write() of 64 KiB values without Flush), re-opened: the last flush must be found behind that tail, and a Flush after the re-open must be durable too. Concurrent cases: the flusher runs next to the mutator under the deterministic scheduler and every image it produced must decode to versions that were current during that Flush. Non-trivial = at least two flushes with mutations between them, unflushed changes pending at some re-open comparison, and a collection created or removed; distinct = distinct op-trace hash.",
 		Assumptions: []string{"collection names are valid UTF-8 (invalid UTF-8 names are a recorded input class)", "single goroutine",
 			"a Flush that returned an error is not a successful Flush: its (possibly complete) root record is not an expected durable state; the full enumeration of fault points is C07's"},
-		NumCases: func(tier string) int { return pick(tier, 1000, 40000) + pick(tier, 300, 9000) },
+		NumCases: func(tier string) int { return pick(tier, 1000, 40000) + pick(tier, 300, 9000) + pick(tier, 4, 40) },
 		Run:      runC02,
 		Floor: func(tier string, st map[string]int64) string {
-			for _, k := range []string{"op.Flush", "op.Reopen", "reopen-compares", "decodes", "op.RemoveCollection", "op.CollWrite", "c02.pending-at-compare", "failed-flushes", "retried-flushes", "c02.concurrent-flush-cases", "reads-during-revert", "op.SnapCollWrite"} {
+			for _, k := range []string{"op.Flush", "op.Reopen", "reopen-compares", "decodes", "op.RemoveCollection", "op.CollWrite", "c02.pending-at-compare", "failed-flushes", "retried-flushes", "c02.concurrent-flush-cases", "reads-during-revert", "op.SnapCollWrite", "c02.many-collections-cases", "c02.large-tail-cases"} {
 				if st[k] == 0 {
 					return "no " + k + " observed"
 				}
@@ -35,6 +35,9 @@ func runC02(ctx *Ctx, idx int) Result {
 	seed := CaseSeed(ctx.Seed, "C02", idx)
 	r := gen.New(seed)
 	SeedGlobalRand(seed)
+	if idx >= pick(ctx.Tier, 1000, 40000)+pick(ctx.Tier, 300, 9000) {
+		return runC02Sizes(ctx, idx, r)
+	}
 	if idx >= pick(ctx.Tier, 1000, 40000) {
 		// Flush running next to the mutator: what it made durable must be a state that was current during it
 		res := runC14Concurrent(ctx, idx, r)
@@ -47,6 +50,9 @@ func runC02(ctx *Ctx, idx int) Result {
 	cfg := driver.Config{ReadbackK: []int{0, 3, 9}[r.Intn(3)], ReopenCheck: true, Decode: true, ReaderInRevert: idx%2 == 0}
 	if idx%7 == 3 {
 		cfg.CB = driver.CBSwap // a BeforeItemWrite/AfterItemRead pair that writes a substitute item
+	}
+	if idx%7 == 5 {
+		cfg.CB = driver.CBTouchOther // another collection gets a new, content-identical version in the middle of every Flush
 	}
 	mix := mixC02
 	mix.Flush = r.Range(5, 30)
@@ -99,4 +105,77 @@ func sameState(e *driver.Env) bool {
 		}
 	}
 	return true
+}
+
+// runC02Sizes: durable state whose root record is far larger than any buffer, and a last root
+// record that lies megabytes before the end of the file.
+func runC02Sizes(ctx *Ctx, idx int, r *gen.R) Result {
+	cfg := driver.Config{ReadbackK: 0, ReopenCheck: false}
+	e := driver.NewEnv(fmt.Sprintf("c02sz-%d", idx), cfg)
+	what := ""
+	if idx%2 == 0 {
+		what = "many-collections"
+		nc := r.Range(1200, 2500)
+		name := func(i int) string { return fmt.Sprintf("collection-%05d-%s", i, "padding-padding"[:r.Intn(15)]) }
+		var names []string
+		for i := 0; i < nc && !e.Failed(); i++ {
+			n := name(i)
+			names = append(names, n)
+			e.SetCollection(n, "")
+			if i%7 == 0 {
+				e.SetItem(n, []byte("k"), []byte(fmt.Sprintf("v%d", i)), int32(i+1), false)
+			}
+		}
+		e.Flush()
+		if !e.Failed() {
+			driver.OpenCopyAndCompare(e, e.F.Bytes(), e.M.Durable(), "many-collections")
+			e.Reopen(true)
+		}
+		for i := 0; i < 40 && !e.Failed(); i++ {
+			e.RemoveCollection(names[r.Intn(len(names))])
+		}
+		for i := 0; i < 30 && !e.Failed(); i++ {
+			n := name(nc + i)
+			e.SetCollection(n, "")
+			e.SetItem(n, []byte("late"), []byte("x"), 7, false)
+		}
+		e.Flush()
+		if !e.Failed() {
+			driver.OpenCopyAndCompare(e, e.F.Bytes(), e.M.Durable(), "many-collections-second-flush")
+			e.Reopen(false)
+			e.ReadbackAll(driver.RAscVal | driver.RTotals)
+		}
+		ctx.Stats["c02.many-collections-cases"]++
+	} else {
+		what = "large-tail"
+		e.SetCollection("a", "")
+		e.SetCollection("big", "")
+		for i := 0; i < 20 && !e.Failed(); i++ {
+			e.SetItem("a", []byte(fmt.Sprintf("k%02d", i)), []byte(fmt.Sprintf("v%d", i)), int32(100+i), false)
+		}
+		e.Flush()
+		val := r.Bytes(65536)
+		for i, n := 0, r.Range(80, 110); i < n && !e.Failed(); i++ {
+			e.SetItem("big", []byte(fmt.Sprintf("b%03d", i)), val, int32(1000+i), false)
+		}
+		e.CollWrite("big") // megabytes of item and node records, no root record
+		e.AfterStep()
+		if !e.Failed() {
+			driver.OpenCopyAndCompare(e, e.F.Bytes(), e.M.Durable(), "behind-a-large-tail")
+			e.Reopen(true)
+			e.ReadbackAll(driver.RAscVal | driver.RTotals)
+		}
+		for i := 0; i < 5 && !e.Failed(); i++ {
+			e.SetItem("a", []byte(fmt.Sprintf("post%d", i)), []byte("p"), int32(5000+i), false)
+		}
+		e.Flush()
+		if !e.Failed() {
+			driver.OpenCopyAndCompare(e, e.F.Bytes(), e.M.Durable(), "flush-after-large-tail")
+		}
+		ctx.Stats["c02.large-tail-cases"]++
+	}
+	e.AfterStep()
+	ctx.Add(e)
+	return Result{Hash: gen.Mix(uint64(idx), 22), NonTrivial: true, Viol: violOf(e),
+		Sample: map[string]interface{}{"index": idx, "sizes": what, "file_bytes": e.F.Size(), "ops": tail(e.Trace, 8)}}
 }
